@@ -71,7 +71,7 @@ ASSUMPTIONS = [
 REQUIRED = ["states_recorded", "hook_steps", "cmp_table_vs_single", "cmp_marginal_vs_table", "cmp_statevector_vs_table",
             "cmp_single_vs_ref", "cmp_table_vs_ref", "cmp_marginal_vs_ref", "cmp_statevector_vs_ref", "cmp_sum_rule",
             "closed_form_checks"]
-WATCHDOG = {"quick": 900, "thorough": 5400}
+WATCHDOG = {"quick": 1800, "thorough": 5400}
 
 TOL = 1e-9
 IMAG_TOL = 1e-11
@@ -985,12 +985,45 @@ def cutoff_observation(ctx, pq):
         ctx.obs.add("cutoff probe raised %s" % type(e).__name__)
 
 
+def warm_up(pq):
+    """Five fixed tiny cases through the whole pipeline with a throw-away context, before the budget clock
+    starts: the first call of every numba-compiled path (SLOS with post-selection, marginals, loop hafnian,
+    pure Fock reference) costs seconds to minutes on a cold cache and must not eat the case budget."""
+    from vf.gen import matrices as M
+
+    w = np.exp(2j * np.pi / 3)
+    F3 = np.array([[1, 1, 1], [1, w, w * w], [1, w * w, w]]) / np.sqrt(3)
+    bs = {"t": "Beamsplitter", "m": [0, 1], "p": {"theta": 0.4, "phi": 0.3}}
+    cases = [
+        {"family": "number", "d": 3, "cutoff": 3, "prep": {"kind": "number", "occ": [1, 1, 0]}, "recipe": "none", "real": False,
+         "gates": [{"t": "Interferometer", "m": [0, 1, 2], "p": {"matrix": M.enc(F3)}},
+                   {"t": "PostSelectPhotons", "m": [2], "p": {"photon_counts": [1]}}]},
+        {"family": "number", "d": 2, "cutoff": 4, "prep": {"kind": "number", "occ": [2, 1]}, "recipe": "uniform-all", "real": False,
+         "gates": [bs, {"t": "UniformLoss", "m": None, "p": {"transmissivity": 0.8}}]},
+        {"family": "superposition", "d": 2, "cutoff": 3, "recipe": "loss-single", "real": False,
+         "prep": {"kind": "superposition", "occs": [[1, 1], [0, 1]], "amps": [[0.6, 0.0], [0.0, 0.8]]},
+         "gates": [bs, {"t": "Loss", "m": [0], "p": {"transmissivity": 0.5}}]},
+        {"family": "dist-scalar", "d": 2, "cutoff": 3, "prep": {"kind": "dist", "occ": [1, 1], "overlap": 0.5, "gram_kind": "scalar"},
+         "recipe": "none", "real": False, "gates": [bs]},
+        {"family": "dist-gram", "d": 2, "cutoff": 3, "recipe": "loss-single", "real": False,
+         "prep": {"kind": "dist", "occ": [2, 0], "gram": M.enc(np.array([[1, 0.5j], [-0.5j, 1]])), "gram_kind": "complex-rank2"},
+         "gates": [bs, {"t": "Loss", "m": [1], "p": {"transmissivity": 0.3}}]},
+    ]
+    scratch = Ctx()
+    for c in cases:
+        evaluate(scratch, pq, c)
+    return scratch
+
+
 def run_shard(spec):
     from vf import boot
 
     pq = boot.import_piquasso()
     rng = np.random.default_rng([int(spec["seed"]), 5, int(spec["shard"])])
     ctx = Ctx()
+    tw = time.time()
+    warm_up(pq)
+    ctx.c["max_warm_up_seconds"] = round(time.time() - tw, 1)
     t0 = time.time()
     budget = 110 if spec["tier"] == "quick" else 165
     cutoff_observation(ctx, pq)
